@@ -10,6 +10,13 @@ package polyjson
 // location gives on the original sequence, and GenBank / GFF text laid out by
 // generators in this file must come out of Build identically whether or not
 // the parsed value went through JSON in between.
+//
+// Besides single round trips on a path there are HISTORIES on one path: three
+// different documents are written to the same path one after the other and the
+// path is read after every write; each Read must give the document written
+// last. The documents of a history are brought to exactly the same byte size
+// and the modification time of the file is set to the same whole second after
+// every write (os.Chtimes), or only one of the two, or neither.
 
 import (
 	"bytes"
@@ -23,6 +30,7 @@ import (
 	"strings"
 	"sync"
 	"testing"
+	"time"
 
 	"github.com/TimothyStiles/poly"
 	"github.com/TimothyStiles/poly/io/genbank"
@@ -331,17 +339,28 @@ func c15Describe(sh c15Shape, seed int64, i int) string {
 
 // c15CheckRecord runs the roundtrip and relink clauses on one record.
 func c15CheckRecord(vr, vl *verifRun, dir string, w int, sh c15Shape, rng *rand.Rand, seed int64, i int) {
-	rec := c15Record(rng, sh)
-	what := c15Describe(sh, seed, i)
+	c15RoundTrip(vr, vl, c15Record(rng, sh), filepath.Join(dir, "c15-"+strconv.Itoa(w)+".json"), c15Describe(sh, seed, i), "", nil)
+}
+
+// c15RoundTrip writes rec to path, reads the path back and judges both
+// clauses. afterWrite (may be nil) runs between Write and Read. historyClass,
+// when not empty, says that path held another document before (see
+// c15CheckHistory) and names that shape: it becomes the class of any failure.
+func c15RoundTrip(vr, vl *verifRun, rec *poly.Sequence, path, what, historyClass string, afterWrite func()) {
 	var want []string // independent evaluation of every feature on the original
 	for _, f := range rec.Features {
 		want = append(want, c15EvalLoc(rec.Sequence, f.SequenceLocation))
 	}
-	path := filepath.Join(dir, "c15-"+strconv.Itoa(w)+".json")
 
-	vr.Case(what, len(rec.Features) > 0 || len(rec.Meta.References) > 0 || len(rec.Meta.Other) > 0)
+	vr.Case(what, len(rec.Features) > 0 || len(rec.Meta.References) > 0 || len(rec.Meta.Other) > 0 || historyClass != "")
 	var got poly.Sequence
-	if p := c15Try(func() { Write(*rec, path); got = Read(path) }); p != "" {
+	if p := c15Try(func() {
+		Write(*rec, path)
+		if afterWrite != nil {
+			afterWrite()
+		}
+		got = Read(path)
+	}); p != "" {
 		vr.Fail("panic", what, p)
 		return
 	}
@@ -351,6 +370,9 @@ func c15CheckRecord(vr, vl *verifRun, dir string, w int, sh c15Shape, rng *rand.
 	cls := func(class string) string { return class }
 	if err == nil && c15LongestLine(raw) > 64*1024 {
 		cls = func(string) string { return "sequence-beyond-64k" }
+	}
+	if historyClass != "" {
+		cls = func(string) string { return historyClass }
 	}
 	if d := c15Diff("Sequence", reflect.ValueOf(*rec), reflect.ValueOf(got)); d != "" {
 		vr.Fail(cls(c15ClassOf(d)), what, c15Clip(d))
@@ -392,6 +414,128 @@ func c15CheckRecord(vr, vl *verifRun, dir string, w int, sh c15Shape, rng *rand.
 				vl.Fail(cls("feature-sequence-differs"), what, fmt.Sprintf("%s: feature %d gives %s, before serialisation %s, independent evaluation %s", name, k, c15Clip(s), c15Clip(before), c15Clip(want[k])))
 				break
 			}
+		}
+	}
+}
+
+// ------------------------------------------- histories on one path ----
+
+// c15Stamp is the modification time given to the file after every write of a
+// history with a pinned time (a whole second: every file system stores it).
+var c15Stamp = time.Date(2020, 1, 2, 3, 4, 5, 0, time.UTC)
+
+// history variants: which of byte size and modification time the successive
+// documents on the path share
+var c15HistoryVariants = []struct {
+	size                int // 0 as it comes, 1 the same for all three documents, 2 different from one write to the next
+	pinTime, sameRecord bool
+	class, text         string
+}{
+	{1, true, false, "path-reused-same-size-and-mtime", "three unrelated records, same byte size, same modification time"},
+	{1, false, false, "path-reused-same-size", "three unrelated records, same byte size, modification time left to the file system"},
+	{2, true, false, "path-reused-same-mtime", "three unrelated records, byte size different from one write to the next, same modification time"},
+	{1, true, true, "path-reused-same-size-and-mtime", "a record, the same record with every base of its sequence replaced, the first record again; same byte size, same modification time"},
+	{0, false, false, "path-reused", "three unrelated records, byte size and modification time as they come"},
+}
+
+func c15FileSize(t *testing.T, path string) int64 {
+	info, err := os.Stat(path)
+	if err != nil {
+		t.Errorf("harness: %v", err)
+		return -1
+	}
+	return info.Size()
+}
+
+// c15CheckHistory writes three different documents to ONE path, one after the
+// other, and reads the path after every write: every Read must give the
+// document written last (both clauses, judged as for a single round trip).
+// For the same-size variants the three documents are brought to the same byte
+// size beforehand: each is written to a second path that is never read
+// through the package, the sizes are taken with os.Stat and the shorter ones
+// get that many ASCII letters appended to Description (one byte each in the
+// file). For the pinned variants os.Chtimes sets the same modification time
+// after every write. The sizes and times the file really had are taken with
+// os.Stat before each Read; a step counts for its variant only if they are as
+// the variant says.
+func c15CheckHistory(t *testing.T, vr, vl *verifRun, dir string, w int, rng *rand.Rand, seed int64, i int) {
+	variant := c15HistoryVariants[i%len(c15HistoryVariants)]
+	path := filepath.Join(dir, "c15-history-"+strconv.Itoa(w)+".json")
+	scratch := filepath.Join(dir, "c15-history-size-"+strconv.Itoa(w)+".json")
+	defer os.Remove(path) // the next history starts on a path that does not exist
+
+	var recs []*poly.Sequence
+	draw := func() c15Shape {
+		return c15Shape{refs: rng.Intn(4), refsNil: rng.Intn(2) == 0, other: rng.Intn(4), features: rng.Intn(6) - 1, attrs: rng.Intn(4), depth: rng.Intn(5), seqLen: 1 + rng.Intn(300)}
+	}
+	if variant.sameRecord {
+		sh := draw()
+		if sh.features < 1 {
+			sh.features = 1
+		}
+		s := rng.Int63()
+		for k := 0; k < 3; k++ {
+			rec := c15Record(rand.New(rand.NewSource(s)), sh) // the same record each time
+			if k == 1 {
+				rec.Sequence = strings.NewReplacer("A", "C", "C", "G", "G", "T", "T", "A").Replace(rec.Sequence)
+			}
+			recs = append(recs, rec)
+		}
+	} else {
+		for k := 0; k < 3; k++ {
+			recs = append(recs, c15Record(rng, draw()))
+		}
+	}
+	if variant.size != 0 && !variant.sameRecord {
+		sizes, most := make([]int64, len(recs)), int64(0)
+		for k, rec := range recs {
+			if p := c15Try(func() { Write(*rec, scratch) }); p != "" {
+				return // Write's own trouble shows in the single round trips
+			}
+			if sizes[k] = c15FileSize(t, scratch); sizes[k] > most {
+				most = sizes[k]
+			}
+		}
+		os.Remove(scratch)
+		for k, rec := range recs {
+			switch {
+			case variant.size == 1:
+				rec.Description += strings.Repeat("x", int(most-sizes[k]))
+			case k > 0 && sizes[k] == sizes[k-1]:
+				rec.Description += "x"
+				sizes[k]++
+			}
+		}
+	}
+
+	var prevSize int64
+	var prevTime time.Time
+	for k, rec := range recs {
+		what := fmt.Sprintf("history #%d (VERIF_SEED %d) on one path, %s; step %d of 3: Write then Read of a record with %d references, %d features, sequence length %d, description of %d bytes",
+			i, seed, variant.text, k+1, len(rec.Meta.References), len(rec.Features), len(rec.Sequence), len(rec.Description))
+		class := ""
+		if k > 0 {
+			class = variant.class
+		}
+		asStated := true
+		c15RoundTrip(vr, vl, rec, path, what, class, func() {
+			if variant.pinTime {
+				if err := os.Chtimes(path, c15Stamp, c15Stamp); err != nil {
+					t.Errorf("harness: %v", err)
+				}
+			}
+			info, err := os.Stat(path)
+			if err != nil {
+				t.Errorf("harness: %v", err)
+				return
+			}
+			if k > 0 && (variant.size == 1 && info.Size() != prevSize || variant.size == 2 && info.Size() == prevSize || variant.pinTime && !info.ModTime().Equal(prevTime)) {
+				asStated = false
+			}
+			prevSize, prevTime = info.Size(), info.ModTime()
+		})
+		if !asStated {
+			t.Errorf("harness: %s: the file does not have the size / modification time the variant states", what)
 		}
 	}
 }
@@ -698,8 +842,10 @@ func c15Convert(v *verifRun, dir string, w int, text string, parse func([]byte) 
 func TestVerifC15(t *testing.T) {
 	nRandom, nGb, nGff := 15000, 10000, 10000
 	longLens, longPer := []int{70000, 200000}, 4
+	nHistory := 400
 	if verifThorough() {
 		nRandom, nGb, nGff = 600000, 400000, 400000
+		nHistory = 20000
 		longLens, longPer = []int{65000, 65536, 66000, 70000, 100000, 200000, 1000000}, 12
 	}
 	dir, err := ioutil.TempDir("", "verif-c15-")
@@ -713,9 +859,13 @@ func TestVerifC15(t *testing.T) {
 		"location structures valid for the sequence, Join nodes of 2..4 operands nested to depth 4, Complement and both partial flags on any node, leaf SubLocations nil or empty; sequences over ACGT"
 	axes := "systematic part: every combination of references {0 nil, 0 empty, 1, 5} x Other {nil, empty, 1 key, several} x Features {nil, empty, 1, 3} x attributes {nil, empty, 1, several} x location depth {0..4} (1280 shapes, content random); " +
 		"random part: " + strconv.Itoa(nRandom) + " seeded records, 0..5 references, 0..6 features, sequence length 0..300; " +
-		"long part: " + strconv.Itoa(longPer) + " records for each sequence length in " + fmt.Sprint(longLens) + " (0..2 references, 1..3 features or none, location depth 0..2; Write puts the sequence on ONE line of the file, beyond 64 KiB from about 65.5 kb on; a failure on a file with such a line is classed sequence-beyond-64k)"
+		"long part: " + strconv.Itoa(longPer) + " records for each sequence length in " + fmt.Sprint(longLens) + " (0..2 references, 1..3 features or none, location depth 0..2; Write puts the sequence on ONE line of the file, beyond 64 KiB from about 65.5 kb on; a failure on a file with such a line is classed sequence-beyond-64k); " +
+		"history part: " + strconv.Itoa(nHistory) + " seeded histories on ONE path (fresh at the start of each history): three different documents (0..3 references, 0..4 features or none, sequence length 1..300) are written to it one after the other and the path is read after every write, every Read must give the document written last; " +
+		"five variants in turn: (a) unrelated records brought to exactly the same byte size (ASCII letters appended to Description) with the modification time set to the same whole second by os.Chtimes after every write, (b) same byte size, time left to the file system, (c) byte size different from one write to the next, time pinned, " +
+		"(d) a record, then the same record with every base of its sequence replaced, then the first record again, same size, time pinned, (e) size and time as they come; size and time are confirmed with os.Stat before each Read; a failure at the 2nd or 3rd step is classed path-reused-same-size-and-mtime (a, d), path-reused-same-size (b), path-reused-same-mtime (c), path-reused (e); " +
+		"apart from the histories every round trip uses one path per worker over and over, each write with its own size and time"
 	vr := newVerifRun("C15", "io/polyjson.Write-Read/post/roundtrip",
-		"Write to a file in a temporary directory, Read back, compare every field by reflection (nil = empty collection, ParentSequence pointer not compared); "+content+"; "+axes+"; non-trivial = has a feature, a reference or an Other entry")
+		"Write to a file in a temporary directory, Read back, compare every field by reflection (nil = empty collection, ParentSequence pointer not compared); "+content+"; "+axes+"; non-trivial = has a feature, a reference or an Other entry, or is the 2nd or 3rd step of a history")
 	vl := newVerifRun("C15", "io/polyjson.Parse/post/relink",
 		"same records; after Read and after Parse on the file's bytes every feature has a parent holding the returned record's sequence and GetSequence equals both its value before serialisation and an independent evaluation of the location on the original sequence; non-trivial = has a feature; "+axes)
 	vg := newVerifRun("C15", "io/polyjson/post/convert-genbank",
@@ -771,6 +921,10 @@ func TestVerifC15(t *testing.T) {
 			rngLong := rand.New(rand.NewSource(seed*7919 + 1000 + int64(w))) // own stream: the other parts stay what they were
 			for i := w; i < len(longShapes); i += workers {
 				c15CheckRecord(vr, vl, dir, w, longShapes[i], rngLong, seed, len(shapes)+nRandom+i)
+			}
+			rngHist := rand.New(rand.NewSource(seed*7919 + 2000 + int64(w))) // own stream as well
+			for i := w; i < nHistory; i += workers {
+				c15CheckHistory(t, vr, vl, dir, w, rngHist, seed, i)
 			}
 			for i := w; i < nRandom; i += workers {
 				sh := c15Shape{refs: rng.Intn(6), refsNil: rng.Intn(2) == 0, other: rng.Intn(4), features: rng.Intn(8) - 1, attrs: rng.Intn(4), depth: rng.Intn(5), seqLen: rng.Intn(301)}
